@@ -158,7 +158,7 @@ def step (s : DState) (toks : List String) : DState × List String :=
     let kOk := match rest.getLast? with
       | some k => (match parseDec k with | some n => decide (1 ≤ n ∧ n ≤ 1000) | none => false)
       | none => false
-    if !(rest.length == 1 || zero) || !kOk || (parseIdx j 32).isNone || (parseHex hex).isNone then (s, bad)
+    if !(rest.length == 1 || zero) || !kOk || (parseIdx j 256).isNone || (parseHex hex).isNone then (s, bad)
     else ({ s with nest := some (["rx", j, hex] ++ (if zero then ["zero"] else [])) }, ["ok"])
   | ["poison", b] =>
     match parseDec b with
